@@ -236,7 +236,8 @@ func equals(t types.Type, x, y value) bool {
 	// Since map, func and slice don't support comparison, this
 	// case is only reachable if one of x or y is literally nil
 	// (handled in eqnil) or via interface{} values.
-	panic(fmt.Sprintf("comparing uncomparable type %s", t))
+	// (a run-time panic of the program under analysis, not of the engine)
+	panic(targetPanic{runtimeError(fmt.Sprintf("runtime error: comparing uncomparable type %s", t))})
 }
 
 // Returns an integer hash of x such that equals(x, y) => hash(x) == hash(y).
@@ -293,7 +294,7 @@ func hash(outer, t types.Type, x value) int {
 	case iface:
 		return x.hash(t)
 	}
-	panic(fmt.Sprintf("unhashable type %v", outer))
+	panic(targetPanic{runtimeError(fmt.Sprintf("runtime error: hash of unhashable type %v", outer))})
 }
 
 // reflect.Value struct values don't have a fixed shape, since the
